@@ -7,8 +7,8 @@
 //        sequential history through the real router / trash worker on 1-2 Directory volumes.
 //        Logical time: one unit = verifC04Unit of real time; "time passes" by aging every file
 //        (mtime and trash deadline are shifted back), one unit after every op plus explicit ticks.
-//   race <serialize 0|1> <life 0|1> <pre a|g|c> <age o|f> <pop touch|put> <top del|ti> <sched>
-//        two goroutines (P = TOUCH/PUT request, T = DELETE request / TrashItem) run against the
+//   race <serialize 0|1> <life 0|1> <pre a|g|c> <age o|f> <pop touch|put> <top del|ti|untrash> <sched>
+//        two goroutines (P = TOUCH/PUT request, T = DELETE request / TrashItem / untrash request) run against the
 //        instrumented unix_volume.go; each parks at every verifPoint; the controller releases
 //        exactly one at a time according to <sched> (letters P/T), then drains with PTPT...
 package main
@@ -624,7 +624,7 @@ func verifC04Label(id string) string {
 }
 
 func verifC04ThreadOf(id string) byte {
-	if strings.HasPrefix(id, "Trash:") || strings.HasPrefix(id, "Mtime:") {
+	if strings.HasPrefix(id, "Trash:") || strings.HasPrefix(id, "Mtime:") || strings.HasPrefix(id, "Untrash:") {
 		return 'T'
 	}
 	return 'P'
@@ -762,7 +762,7 @@ func verifC04Race(base string, f []string) (string, error) {
 	if len(f) != 8 {
 		return "", fmt.Errorf("race: want 8 fields")
 	}
-	for i, allowed := range map[int]string{1: "0 1", 2: "0 1", 3: "a g c", 4: "o f", 5: "touch put", 6: "del ti"} {
+	for i, allowed := range map[int]string{1: "0 1", 2: "0 1", 3: "a g c", 4: "o f", 5: "touch put", 6: "del ti untrash"} {
 		ok := false
 		for _, a := range strings.Fields(allowed) {
 			ok = ok || a == f[i]
@@ -803,6 +803,13 @@ func verifC04Race(base string, f []string) (string, error) {
 			return "", err
 		}
 	}
+	if f[6] == "untrash" {
+		// an old intact copy in the trash, 3 units of lifetime left
+		dl := start.Unix() + 3*int64(verifC04Unit/time.Second)
+		if err := s.plant(0, 0, true, start.Add(-30*verifC04Unit), &dl); err != nil {
+			return "", err
+		}
+	}
 	h := verifC04Hash(0)
 	ctl := &verifC04Ctl{th: map[byte]*verifC04Thread{}, locker: s.lockers[0], pid: strconv.Itoa(os.Getpid())}
 	for _, x := range []byte{'P', 'T'} {
@@ -837,6 +844,9 @@ func verifC04Race(base string, f []string) (string, error) {
 		return "", err
 	}
 	run('T', func() string {
+		if f[6] == "untrash" {
+			return strconv.Itoa(s.do("PUT", "/untrash/"+h, nil, true).Code)
+		}
 		if f[6] == "del" {
 			resp := s.do("DELETE", "/"+h, nil, true)
 			r := strconv.Itoa(resp.Code)
